@@ -140,7 +140,7 @@ def parse_traceback(err):
 
 
 EXITS = [0, 1, 2, 3, 255]
-EXIT_CTX = ["module", "fn", "method", "nested_fn", "in_try", "after_output", "in_loop", "in_init"]
+EXIT_CTX = ["module", "fn", "method", "nested_fn", "in_try", "after_output", "in_loop", "in_init", "in_callback", "in_lazy_callback", "in_nested_callback", "in_callback_try"]
 
 
 def exit_program(n, ctx):
@@ -160,6 +160,15 @@ def exit_program(n, ctx):
         return pre + [["for", "i", inv(N(3), "times"), [["print", [S("line"), V("i")]]]], ex]
     if ctx == "in_loop":
         return pre + [["for", "i", inv(N(3), "times"), [["print", [S("line"), V("i")]], ["if", ["bin", "==", V("i"), N(1)], [ex], None]]], ["print", [S("never")]]]
+    if ctx == "in_callback":  # run by a native that has a frame of its own
+        return pre + [["expr", inv(inv(["list", [N(1), N(2)]], "iter"), "each", ["lambda", ["x"], [["print", [S("cb"), V("x")]], ex], False])], ["print", [S("never")]]]
+    if ctx == "in_lazy_callback":  # run by a frameless native driving a lazy iterator
+        return pre + [["print", [inv(inv(inv(["list", [N(1), N(2)]], "iter"), "map", ["lambda", ["x"], [["print", [S("cb"), V("x")]], ex, ["return", V("x")]], False]), "list")]], ["print", [S("never")]]]
+    if ctx == "in_nested_callback":
+        return pre + [["fn", "g", ["y"], [ex, ["return", N(1)]]],
+                      ["expr", inv(inv(["list", [N(1)]], "iter"), "each", ["lambda", ["x"], [["expr", inv(inv(["list", [N(2)]], "iter"), "each", ["lambda", ["y"], [["expr", call("g", V("y"))]], False])]], False])], ["print", [S("never")]]]
+    if ctx == "in_callback_try":
+        return pre + [["try", [["expr", inv(inv(["list", [N(1)]], "iter"), "each", ["lambda", ["x"], [["try", [ex], "e1", None, [["print", [S("caught?!")]]]]], False])]], "e2", None, [["print", [S("caught outside?!")]]]], ["print", [S("never")]]]
     return pre + [["class", "K", None, [("method", "init", [], [ex])]], ["let", "k", call("K")], ["print", [S("never")]]]
 
 
@@ -269,6 +278,6 @@ def main(tier):
     t0 = time.time()
     chk = C18()
     chk.rule = ("all call chains of depth 1..D (D=3 quick, 4 thorough) over 7 frame kinds (module frames contiguous and innermost) x raise sites (5; 3 for depth 3 in quick) x catch position "
-                "{uncaught, script, every frame} x 2 line layouts; exit(n) for n in {0,1,2,3,255} x 8 contexts. non-trivial = every scenario")
+                "{uncaught, script, every frame} x 2 line layouts; exit(n) for n in {0,1,2,3,255} x 12 contexts (incl. callbacks run by natives). non-trivial = every scenario")
     merged = explore(chk, tier, cap_s=(1500 if tier == "thorough" else 200))
     return report.finish(chk, tier, merged, t0)
